@@ -142,7 +142,7 @@ func (c *Ctx) lexemeDispatch() (fn *ast.FuncDecl, handlers map[string][]*types.F
 
 // RuleN1: the parser's nullable state.
 func RuleN1(c *Ctx) {
-	sc := c.Run.Begin("N1", "core.currentDirective / currentContextDirective are tested for nil before every use that a lexeme kind emittable without a directive (S1h, from the scanner automaton) can reach", 2)
+	sc := c.Run.Begin("N1", "core.currentDirective / currentContextDirective are tested for nil before every use that a lexeme kind emittable without a directive (S1h, from the scanner automaton) can reach", 1)
 	defer sc.End()
 	pk := c.P.Pkg("core")
 	cur := c.Field("core", "JApiCore", "currentDirective")
@@ -338,7 +338,7 @@ func (c *Ctx) paramNilSafe(callee *types.Func, i int) bool {
 // RuleN1b: handlers that dereference d.Parent unguarded are registered only for
 // kinds that can never stand at top level.
 func RuleN1b(c *Ctx) {
-	sc := c.Run.Begin("N1b", "a directive handler that dereferences d.Parent without a nil test is registered only for kinds outside IsAllowedForRootContext", 2)
+	sc := c.Run.Begin("N1b", "a directive handler that dereferences d.Parent without a nil test is registered only for kinds outside IsAllowedForRootContext", 1)
 	defer sc.End()
 	pk := c.P.Pkg("core")
 	parent := c.Field("directive", "Directive", "Parent")
